@@ -112,6 +112,7 @@ var (
 	sStallHot                              bool
 	sClkRate, sClkRng, sClkLeft, sClkJumps uint64
 	sClkStart                              int64
+	sMainG                                 uintptr // the goroutine that runs the sequential phases (reference passes, canary)
 	sStallBase                             [maxTasks]int32
 	siteHot                                []bool
 	treeHot                                int // number of yield sites in front of statements that touch shared state (0 on the pinned tree, apart from a few false positives)
